@@ -197,7 +197,7 @@ def oracle_extend(ctx, loc, distance, length, circular, result, case=None):
     has_introns = span_len != ring.total_len(fwd)
     self_lapping = circular and span_len + 2 * distance > length
     facts = _facts(length, loc, distance=distance, circular=circular, result=_s(result),
-                   self_lapping=self_lapping, has_introns=has_introns)
+                   self_lapping=self_lapping, has_introns=has_introns, parts=len(loc.parts))
     wf = ring.wellformed(result, length)
     if wf:
         ctx.violate("extend-wellformed:" + wf, facts, case)
